@@ -244,11 +244,27 @@ class Lexer:
             )
 
         try:
-            return str(chr(int(escape, 16)))
+            code = int(escape, 16)
         except ValueError:
             raise InvalidEscapeSequence(
                 "\\u%s" % escape, start - 1, self._source
             )
+
+        # A high surrogate escape directly followed by a low surrogate escape
+        # denotes ONE character (the two \uXXXX are UTF-16 code units).
+        if 0xD800 <= code <= 0xDBFF:
+            follow = self._source[self._position : self._position + 6]
+            if (
+                len(follow) == 6
+                and follow[:2] == "\\u"
+                and all(c in hexdigits for c in follow[2:])
+            ):
+                low = int(follow[2:], 16)
+                if 0xDC00 <= low <= 0xDFFF:
+                    self._position += 6
+                    code = 0x10000 + ((code - 0xD800) << 10) + (low - 0xDC00)
+
+        return chr(code)
 
     def _read_number(self) -> Union[Integer, Float]:  # noqa: C901
         start = self._position
